@@ -426,6 +426,9 @@ def call_builtin(eng, fn, args, kwargs):
             n = a0
             if isinstance(n, int):
                 return SArr([1 if fn is np.ones else 0] * n)
+        if fn is np.full and isinstance(a0, int) and len(args) >= 2 and isinstance(args[1], (int, bool, SInt)):
+            # 1-D vector of mathematical integers (the width of the dtype is not modelled)
+            return SArr([args[1] if isinstance(args[1], int) else zint(args[1])] * a0)
         if fn is np.where or fn is np.nonzero or fn is np.flatnonzero:
             cond = a0
             if isinstance(cond, SArr):
